@@ -64,6 +64,67 @@ theorem lookup_map_val (l : List (Mod × α)) (f : Mod → α → β) (x : Mod) 
     · simp_all
     · rfl
 
+theorem lookup_none_of_not_mem_keys {l : List (Mod × α)} {k : Mod} (h : k ∉ keys l) :
+    lookup l k = none := by
+  cases hl : lookup l k with
+  | none => rfl
+  | some v => exact absurd (mem_keys_of_lookup hl) h
+
+theorem keys_erase (l : List (Mod × α)) (k x : Mod) :
+    x ∈ keys (erase l k) ↔ x ∈ keys l ∧ x ≠ k := by
+  simp only [keys, erase, List.mem_map, List.mem_filter, decide_eq_true_eq]
+  constructor
+  · rintro ⟨p, ⟨hp, hne⟩, rfl⟩; exact ⟨⟨p, hp, rfl⟩, hne⟩
+  · rintro ⟨⟨p, hp, rfl⟩, hne⟩; exact ⟨p, ⟨hp, hne⟩, rfl⟩
+
+/-- Each key once (what a Rust `HashMap` guarantees). -/
+def NodupKeys (l : List (Mod × α)) : Prop := (keys l).Nodup
+
+theorem nodupKeys_erase (l : List (Mod × α)) (k : Mod) (h : NodupKeys l) :
+    NodupKeys (erase l k) := by
+  unfold NodupKeys keys erase at *
+  exact (List.Nodup.sublist (List.Sublist.map _ List.filter_sublist) h)
+
+theorem nodupKeys_insert (l : List (Mod × α)) (k : Mod) (v : α) (h : NodupKeys l) :
+    NodupKeys (insert l k v) := by
+  have h2 := nodupKeys_erase l k h
+  unfold NodupKeys at *
+  simp only [insert, keys, List.map_cons, List.nodup_cons]
+  refine ⟨?_, h2⟩
+  intro hk
+  have := (keys_erase l k k).mp hk
+  exact this.2 rfl
+
+theorem nodupKeys_foldl_insert (L : List (Mod × α)) (S : List (Mod × α)) (h : NodupKeys S) :
+    NodupKeys (L.foldl (fun acc p => insert acc p.1 p.2) S) := by
+  induction L generalizing S with
+  | nil => exact h
+  | cons p t ih => exact ih _ (nodupKeys_insert S p.1 p.2 h)
+
+theorem mem_iff_lookup_of_nodup {l : List (Mod × α)} (h : NodupKeys l) (k : Mod) (v : α) :
+    (k, v) ∈ l ↔ lookup l k = some v := by
+  induction l with
+  | nil => simp [lookup]
+  | cons p t ih =>
+    obtain ⟨k', v'⟩ := p
+    unfold NodupKeys at h ih
+    simp only [keys, List.map_cons, List.nodup_cons] at h
+    simp only [List.mem_cons, Prod.mk.injEq, lookup]
+    by_cases hk : k' = k
+    · subst hk
+      simp only [↓reduceIte, Option.some.injEq]
+      constructor
+      · rintro (⟨_, rfl⟩ | hm)
+        · rfl
+        · exact absurd (List.mem_map.mpr ⟨(k', v), hm, rfl⟩) h.1
+      · intro hv; exact .inl ⟨trivial, hv.symm⟩
+    · simp only [hk, ↓reduceIte]
+      constructor
+      · rintro (⟨rfl, _⟩ | hm)
+        · exact absurd rfl hk
+        · exact (ih h.2).mp hm
+      · intro hl; exact .inr ((ih h.2).mpr hl)
+
 end AList
 
 /-! ## `transitive_set` -/
@@ -316,12 +377,20 @@ theorem mem_checkAll (S : Sources Mod Content) (G : List (Mod × Sig)) (R : List
   · rintro ⟨m, hm, c, hc, h⟩
     exact ⟨m, hm, by simp [hc, h]⟩
 
+theorem mem_retained (s : State Mod Content Sig Err) (R : List Mod) (k : Mod) (e : Err) :
+    (k, e) ∈ retained ck s R ↔ k ∈ R ∧ e ∈ getErrors s k ∧ ck.isSyntax e = true := by
+  simp only [retained, List.mem_flatMap, tagged, List.mem_map, List.mem_filter, Prod.mk.injEq]
+  constructor
+  · rintro ⟨m, hm, a, ⟨ha, hs⟩, rfl, rfl⟩; exact ⟨hm, ha, hs⟩
+  · rintro ⟨h1, h2, h3⟩; exact ⟨k, h1, e, ⟨h2, h3⟩, rfl, rfl⟩
+
 /-- What `get_errors` returns after `recheck`. -/
 theorem mem_getErrors_recheck (s : State Mod Content Sig Err) (pending : List (Mod × Err))
     (R : List Mod) (k : Mod) (e : Err) :
     e ∈ getErrors (recheck ck s pending R) k ↔
-      (k, e) ∈ pending ++ checkAll ck s.sources s.globalCx R ∨
-        (k ∉ R ∧ (∀ e', (k, e') ∉ pending ++ checkAll ck s.sources s.globalCx R) ∧
+      (k, e) ∈ pending ++ (retained ck s R ++ checkAll ck s.sources s.globalCx R) ∨
+        (k ∉ R ∧
+          (∀ e', (k, e') ∉ pending ++ (retained ck s R ++ checkAll ck s.sources s.globalCx R)) ∧
           e ∈ getErrors s k) := by
   simp only [getErrors, recheck, lookup_overwrite]
   split
@@ -338,7 +407,8 @@ theorem mem_getErrors_recheck (s : State Mod Content Sig Err) (pending : List (M
         · exact absurd ht h1
   · rename_i ht
     have h1 : k ∉ R := fun h => ht (List.mem_append_right _ h)
-    have h2 : ∀ e', (k, e') ∉ pending ++ checkAll ck s.sources s.globalCx R := fun e' h =>
+    have h2 : ∀ e', (k, e') ∉
+        pending ++ (retained ck s R ++ checkAll ck s.sources s.globalCx R) := fun e' h =>
       ht (List.mem_append_left _ (List.mem_map.mpr ⟨(k, e'), h, rfl⟩))
     constructor
     · exact fun h => .inr ⟨h1, h2, h⟩
@@ -388,39 +458,37 @@ theorem mem_getErrors_fresh (S : Sources Mod Content) (k : Mod) (e : Err) :
 
 end Recheck
 
-/-! ## Side conditions, invariants -/
+
+/-! ## Hypotheses on the checker parameter, invariants -/
 
 section Inv
 variable {Mod Content Sig Err : Type} [DecidableEq Mod]
 variable (ck : Checker Mod Content Sig Err)
 
-/-- **Frame hypothesis** on the checker parameter: the diagnostics of `m` against a from-scratch
-global signature depend only on the sources in the forward import closure of `m`
-(ROOT's builtin signature is the same in every from-scratch signature). -/
+/-- **Frame hypothesis**: the diagnostics of `m` against a from-scratch global signature depend
+only on the sources in the forward import closure of `m` (ROOT's builtin signature is the same in
+every from-scratch signature). -/
 def Frame : Prop :=
   ∀ (S S' : Sources Mod Content) (m : Mod) (c : Content), lookup S m = some c →
     (∀ x, Reach (fwdEdges ck S) m x → lookup S' x = lookup S x) →
     ck.check m c (lookup (freshCx ck S')) = ck.check m c (lookup (freshCx ck S))
 
-/-- **Locality hypothesis**: checking `m` against a from-scratch global signature only reports
-errors located in `m`.  (Against a *stale* signature the real checker does report errors located
-in other modules — the locations inside the signature — which is part of finding C10-F1.) -/
-def Local : Prop := ∀ (S : Sources Mod Content) (m : Mod) (c : Content) (k : Mod) (e : Err),
-  (k, e) ∈ ck.check m c (lookup (freshCx ck S)) → k = m
+/-- **Weak locality hypothesis** (what the real checker satisfies): an error that checking `m`
+against a from-scratch signature reports *into another module* `k` lies in the forward import
+closure of `m` and is also reported by `k`'s own check.  (E.g. `interface A : E` re-reports E's
+supertype error at E's location.) -/
+def LocalW : Prop :=
+  ∀ (S : Sources Mod Content) (m : Mod) (c : Content) (k : Mod) (e : Err),
+    lookup S m = some c → (k, e) ∈ ck.check m c (lookup (freshCx ck S)) →
+    k = m ∨ (Reach (fwdEdges ck S) m k ∧
+      ∃ c', lookup S k = some c' ∧ (k, e) ∈ ck.check k c' (lookup (freshCx ck S)))
 
-/-- Signatures do not mention the module they were built under. -/
-def SigIndep : Prop := ∀ (m m' : Mod) (c : Content), ck.sig m c = ck.sig m' c
-
-/-- Every source parses without errors. -/
-def CleanS (S : Sources Mod Content) : Prop :=
-  ∀ (m : Mod) (c : Content), lookup S m = some c → ck.parseErrs c = []
-
-/-- Side condition of the `_partial` theorem, per operation: ROOT is not an operand; written
-contents parse without errors; renames only if signatures are module-independent. -/
-def OpSafe : Op Mod Content → Prop
-  | .update ups => ck.root ∉ keys ups ∧ ∀ p ∈ ups, ck.parseErrs p.2 = []
-  | .rename rens => SigIndep ck ∧ ∀ p ∈ rens, p.1 ≠ ck.root ∧ p.2 ≠ ck.root
-  | .remove ms => ck.root ∉ ms
+/-- Parse errors are syntax errors, type-check errors are not (`ErrorDetail::InvalidSyntax` is
+only ever reported by the parser). -/
+def Kinds : Prop :=
+  (∀ (c : Content) (e : Err), e ∈ ck.parseErrs c → ck.isSyntax e = true) ∧
+    ∀ (S : Sources Mod Content) (m : Mod) (c : Content) (k : Mod) (e : Err),
+      (k, e) ∈ ck.check m c (lookup (freshCx ck S)) → ck.isSyntax e = false
 
 def GoodCx (S : Sources Mod Content) (G : List (Mod × Sig)) : Prop :=
   ∀ x, lookup G x = lookup (freshCx ck S) x
@@ -429,11 +497,7 @@ def ErrInv (s : State Mod Content Sig Err) : Prop :=
   ∀ k e, e ∈ getErrors s k ↔ e ∈ getErrors (fresh ck s.sources) k
 
 def Inv (s : State Mod Content Sig Err) : Prop :=
-  GoodCx ck s.sources s.globalCx ∧ ErrInv ck s ∧ CleanS ck s.sources
-
-/-- `global_cx` has an entry for every source (what the `unwrap()` of `rename_module` needs). -/
-def KeysOk (s : State Mod Content Sig Err) : Prop :=
-  ∀ m, (lookup s.sources m).isSome → (lookup s.globalCx m).isSome
+  GoodCx ck s.sources s.globalCx ∧ ErrInv ck s
 
 theorem foldl_inv {σ α : Type} (P : σ → Prop) (f : σ → α → σ) (l : List α)
     (h : ∀ s a, a ∈ l → P s → P (f s a)) (s : σ) (hs : P s) : P (l.foldl f s) := by
@@ -443,52 +507,123 @@ theorem foldl_inv {σ α : Type} (P : σ → Prop) (f : σ → α → σ) (l : L
     simp only [List.foldl_cons]
     exact ih (fun s b hb => h s b (List.mem_cons_of_mem _ hb)) _ (h s a List.mem_cons_self hs)
 
-theorem fresh_local (hL : Local ck) (S : Sources Mod Content) (hc : CleanS ck S) (k : Mod) (e : Err) :
+/-- Diagnostics of a from-scratch server, per module: its own syntax errors and its own type
+errors (errors other modules report into it are duplicates, by `LocalW`). -/
+theorem fresh_char (hL : LocalW ck) (S : Sources Mod Content) (k : Mod) (e : Err) :
     e ∈ getErrors (fresh ck S) k ↔
-      ∃ c, lookup S k = some c ∧ (k, e) ∈ ck.check k c (lookup (freshCx ck S)) := by
+      ∃ c, lookup S k = some c ∧
+        (e ∈ ck.parseErrs c ∨ (k, e) ∈ ck.check k c (lookup (freshCx ck S))) := by
   rw [mem_getErrors_fresh]
   constructor
   · rintro (⟨c, h1, h2⟩ | ⟨m, c, h1, h2⟩)
-    · rw [hc k c h1] at h2; simp at h2
-    · have := hL S m c k e h2; subst this; exact ⟨c, h1, h2⟩
-  · rintro ⟨c, h1, h2⟩; exact .inr ⟨k, c, h1, h2⟩
+    · exact ⟨c, h1, .inl h2⟩
+    · rcases hL S m c k e h1 h2 with rfl | ⟨_, c', h3, h4⟩
+      · exact ⟨c, h1, .inr h2⟩
+      · exact ⟨c', h3, .inr h4⟩
+  · rintro ⟨c, h1, h2 | h2⟩
+    · exact .inl ⟨c, h1, h2⟩
+    · exact .inr ⟨k, c, h1, h2⟩
 
-/-- The common core of the three operations: sources changed only inside `D`, `global_cx`
-already equal to the from-scratch one, recheck set covering `D` and every module whose forward
-closure (in the old or in the new graph) meets `D`. -/
-theorem recheck_inv (hF : Frame ck) (hL : Local ck) (s s1 : State Mod Content Sig Err)
-    (D R : List Mod) (hinv : Inv ck s) (herr : s1.errors = s.errors)
-    (hcx : GoodCx ck s1.sources s1.globalCx) (hclean : CleanS ck s1.sources)
+theorem reach_closed (S : Sources Mod Content) (R : List Mod)
+    (hcl : ∀ y c x, y ∈ R → lookup S y = some c → x ∈ ck.imports c → x ∈ R)
+    (m k : Mod) (hm : m ∈ R) (hr : Reach (fwdEdges ck S) m k) : k ∈ R := by
+  induction hr with
+  | refl => exact hm
+  | @step a b _ e _ ih =>
+    apply ih
+    unfold fwdEdges at e
+    split at e
+    · rename_i c hc; exact hcl a c b hm hc e
+    · simp at e
+
+/-- The common core of the three operations.  `s1` is the state the caller hands to `recheck`:
+sources changed only inside `D`; `global_cx` equal to the from-scratch one; for every module
+either nothing was touched (`errors` entry, source, no pending syntax errors) or its `errors`
+entry was dropped and its pending syntax errors are those of its current text (`syn`); the
+recheck set covers `D` and every module whose forward closure (old or new graph) meets `D`, and
+is closed under the imports of the new sources. -/
+theorem recheck_inv (hF : Frame ck) (hL : LocalW ck) (hK : Kinds ck)
+    (s s1 : State Mod Content Sig Err) (syn : List (Mod × List Err))
+    (pending : List (Mod × Err)) (D R : List Mod) (hinv : Inv ck s)
+    (hcx : GoodCx ck s1.sources s1.globalCx)
+    (hpend : ∀ k e, (k, e) ∈ pending ↔ ∃ es, lookup syn k = some es ∧ e ∈ es)
+    (hQ : ∀ k, (lookup s1.errors k = lookup s.errors k ∧ lookup s1.sources k = lookup s.sources k ∧
+        lookup syn k = none) ∨
+      (lookup s1.errors k = none ∧ lookup syn k = (lookup s1.sources k).map ck.parseErrs))
+    (hQA : ∀ k, k ∉ D → lookup s1.errors k = lookup s.errors k ∧ lookup syn k = none)
     (hD : ∀ x, x ∉ D → lookup s1.sources x = lookup s.sources x)
     (hDR : ∀ x ∈ D, x ∈ R)
     (hcov : ∀ k, k ∉ R → (∀ x, Reach (fwdEdges ck s.sources) k x → x ∉ D) ∨
-      (∀ x, Reach (fwdEdges ck s1.sources) k x → x ∉ D)) :
-    Inv ck (recheck ck s1 [] R) := by
+      (∀ x, Reach (fwdEdges ck s1.sources) k x → x ∉ D))
+    (hcl : ∀ y c x, y ∈ R → lookup s1.sources y = some c → x ∈ ck.imports c → x ∈ R) :
+    Inv ck (recheck ck s1 pending R) := by
   have hG : lookup s1.globalCx = lookup (freshCx ck s1.sources) := funext hcx
-  refine ⟨hcx, ?_, hclean⟩
+  refine ⟨hcx, ?_⟩
   intro k e
   rw [mem_getErrors_recheck]
   show _ ↔ e ∈ getErrors (fresh ck s1.sources) k
-  rw [fresh_local ck hL s1.sources hclean]
-  simp only [List.nil_append, mem_checkAll, hG]
+  rw [fresh_char ck hL s1.sources]
+  simp only [List.mem_append, mem_checkAll, mem_retained, hpend, hG]
+  -- the old entry of `k`, read through the invariant of `s`
+  have hold : ∀ e, e ∈ getErrors s k ↔ ∃ c, lookup s.sources k = some c ∧
+      (e ∈ ck.parseErrs c ∨ (k, e) ∈ ck.check k c (lookup (freshCx ck s.sources))) := fun e => by
+    rw [hinv.2 k e, fresh_char ck hL s.sources]
+  -- what other rechecked modules report into `k` is what `k` reports itself
+  have hforeign : ∀ e', (∃ m ∈ R, ∃ c, lookup s1.sources m = some c ∧
+      (k, e') ∈ ck.check m c (lookup (freshCx ck s1.sources))) →
+      k ∈ R ∧ ∃ c, lookup s1.sources k = some c ∧
+        (k, e') ∈ ck.check k c (lookup (freshCx ck s1.sources)) := by
+    rintro e' ⟨m, hm, c, h1, h2⟩
+    rcases hL s1.sources m c k e' h1 h2 with rfl | ⟨hr, c', h3, h4⟩
+    · exact ⟨hm, c, h1, h2⟩
+    · exact ⟨reach_closed ck s1.sources R hcl m k hm hr, c', h3, h4⟩
   by_cases hk : k ∈ R
   · constructor
-    · rintro (⟨m, _, c, h1, h2⟩ | ⟨h, _⟩)
-      · have := hL s1.sources m c k e h2; subst this; exact ⟨c, h1, h2⟩
+    · rintro ((⟨es, h1, h2⟩ | ⟨_, h2, h3⟩ | h) | ⟨h, _⟩)
+      · -- pending syntax error
+        rcases hQ k with ⟨_, _, hn⟩ | ⟨_, hs⟩
+        · rw [hn] at h1; cases h1
+        · rw [hs] at h1
+          cases hc : lookup s1.sources k with
+          | none => rw [hc] at h1; cases h1
+          | some c =>
+            rw [hc] at h1; cases h1
+            exact ⟨c, rfl, .inl h2⟩
+      · -- retained syntax error
+        rcases hQ k with ⟨he, hsrc, _⟩ | ⟨he, _⟩
+        · have h2' : e ∈ getErrors s k := by simpa only [getErrors, he] using h2
+          obtain ⟨c, hc, hor⟩ := (hold e).mp h2'
+          rcases hor with hp | ht
+          · exact ⟨c, by rw [hsrc]; exact hc, .inl hp⟩
+          · have := hK.2 s.sources k c k e ht
+            rw [this] at h3; cases h3
+        · simp [getErrors, he] at h2
+      · obtain ⟨_, c, h1, h2⟩ := hforeign e h
+        exact ⟨c, h1, .inr h2⟩
       · exact absurd hk h
-    · rintro ⟨c, h1, h2⟩; exact .inl ⟨k, hk, c, h1, h2⟩
+    · rintro ⟨c, h1, h2 | h2⟩
+      · rcases hQ k with ⟨he, hsrc, _⟩ | ⟨_, hs⟩
+        · -- untouched: retained from the old entry
+          refine .inl (.inr (.inl ⟨hk, ?_, hK.1 c e h2⟩))
+          have : e ∈ getErrors s k := (hold e).mpr ⟨c, by rw [← hsrc]; exact h1, .inl h2⟩
+          simpa only [getErrors, he] using this
+        · exact .inl (.inl ⟨ck.parseErrs c, by rw [hs, h1]; rfl, h2⟩)
+      · exact .inl (.inr (.inr ⟨k, hk, c, h1, h2⟩))
   · have hkD : k ∉ D := fun h => hk (hDR k h)
-    have hno : ∀ e', ¬ ∃ m ∈ R, ∃ c, lookup s1.sources m = some c ∧
-        (k, e') ∈ ck.check m c (lookup (freshCx ck s1.sources)) := by
-      rintro e' ⟨m, hm, c, _, h2⟩
-      have := hL s1.sources m c k e' h2; subst this; exact hk hm
-    have hold : e ∈ getErrors s k ↔
-        ∃ c, lookup s.sources k = some c ∧ (k, e) ∈ ck.check k c (lookup (freshCx ck s.sources)) := by
-      rw [hinv.2.1 k e, fresh_local ck hL s.sources hinv.2.2]
+    obtain ⟨he, hn⟩ := hQA k hkD
+    have hge : getErrors s1 k = getErrors s k := by simp only [getErrors, he]
+    have hno : ∀ e', ¬ ((∃ es, lookup syn k = some es ∧ e' ∈ es) ∨
+        (k ∈ R ∧ e' ∈ getErrors s k ∧ ck.isSyntax e' = true) ∨
+        ∃ m ∈ R, ∃ c, lookup s1.sources m = some c ∧
+          (k, e') ∈ ck.check m c (lookup (freshCx ck s1.sources))) := by
+      rintro e' (⟨es, h1, _⟩ | ⟨h, _⟩ | h)
+      · rw [hn] at h1; cases h1
+      · exact hk h
+      · exact hk (hforeign e' h).1
     have hsame : (∃ c, lookup s.sources k = some c ∧
-          (k, e) ∈ ck.check k c (lookup (freshCx ck s.sources))) ↔
+          (e ∈ ck.parseErrs c ∨ (k, e) ∈ ck.check k c (lookup (freshCx ck s.sources)))) ↔
         ∃ c, lookup s1.sources k = some c ∧
-          (k, e) ∈ ck.check k c (lookup (freshCx ck s1.sources)) := by
+          (e ∈ ck.parseErrs c ∨ (k, e) ∈ ck.check k c (lookup (freshCx ck s1.sources))) := by
       rw [hD k hkD]
       have heq : ∀ c, lookup s.sources k = some c →
           ck.check k c (lookup (freshCx ck s1.sources)) =
@@ -501,14 +636,13 @@ theorem recheck_inv (hF : Frame ck) (hL : Local ck) (s s1 : State Mod Content Si
       constructor
       · rintro ⟨c, h1, h2⟩; exact ⟨c, h1, by rw [heq c h1]; exact h2⟩
       · rintro ⟨c, h1, h2⟩; exact ⟨c, h1, by rw [← heq c h1]; exact h2⟩
-    have hge : getErrors s1 k = getErrors s k := by simp only [getErrors, herr]
     rw [hge]
     constructor
     · rintro (h | ⟨_, _, h⟩)
       · exact absurd h (hno e)
-      · exact hsame.mp (hold.mp h)
+      · exact hsame.mp ((hold e).mp h)
     · intro h
-      exact .inr ⟨hk, hno, hold.mpr (hsame.mpr h)⟩
+      exact .inr ⟨hk, hno, (hold e).mpr (hsame.mpr h)⟩
 
 end Inv
 
@@ -526,175 +660,315 @@ theorem cov_affectedSet (S : Sources Mod Content) (D : List Mod) (k : Mod)
     (hk : k ∉ affectedSet ck S D) : ∀ x, Reach (fwdEdges ck S) k x → x ∉ D :=
   fun x hx hxD => hk ((mem_affectedSet ck S D k).mpr ⟨k, ⟨x, hxD, hx⟩, .refl k⟩)
 
-theorem update_inv (hF : Frame ck) (hL : Local ck) (s : State Mod Content Sig Err)
-    (ups : List (Mod × Content)) (hroot : ck.root ∉ keys ups)
-    (hclean : ∀ p ∈ ups, ck.parseErrs p.2 = []) (hinv : Inv ck s) : Inv ck (update ck s ups) := by
-  have hfold := foldl_inv
-    (fun s' : State Mod Content Sig Err => s'.errors = s.errors ∧
-      GoodCx ck s'.sources s'.globalCx ∧ CleanS ck s'.sources ∧
-      ∀ x, x ∉ keys ups → lookup s'.sources x = lookup s.sources x)
-    (updateOne ck) ups
-    (by
-      rintro s' p hp ⟨h1, h2, h3, h4⟩
-      have hpk : p.1 ∈ keys ups := List.mem_map.mpr ⟨p, hp, rfl⟩
-      refine ⟨h1, ?_, ?_, ?_⟩
-      · intro x
+theorem affected_closed (S : Sources Mod Content) (D : List Mod) (y x : Mod)
+    (hy : y ∈ affectedSet ck S D) (hx : x ∈ fwdEdges ck S y) : x ∈ affectedSet ck S D := by
+  obtain ⟨a, ha, hay⟩ := (mem_affectedSet ck S D y).mp hy
+  exact (mem_affectedSet ck S D x).mpr ⟨a, ha, hay.tail hx⟩
+
+theorem mem_fwdEdges_of_lookup (S : Sources Mod Content) (y : Mod) (c : Content) (x : Mod)
+    (hc : lookup S y = some c) (hx : x ∈ ck.imports c) : x ∈ fwdEdges ck S y := by
+  simp [fwdEdges, hc, hx]
+
+/-! ### folds over a batch -/
+
+theorem lookup_foldl_insert {α : Type} (U : List (Mod × α)) (hU : NodupKeys U)
+    (S : List (Mod × α)) (x : Mod) :
+    lookup (U.foldl (fun S p => insert S p.1 p.2) S) x =
+      match lookup U x with
+      | some c => some c
+      | none => lookup S x := by
+  induction U generalizing S with
+  | nil => simp [lookup]
+  | cons p t ih =>
+    obtain ⟨k, v⟩ := p
+    have hU' := hU
+    unfold NodupKeys at hU'
+    simp only [keys, List.map_cons, List.nodup_cons] at hU'
+    simp only [List.foldl_cons, ih hU'.2, lookup_insert, lookup]
+    by_cases hk : k = x
+    · subst hk
+      rw [lookup_none_of_not_mem_keys hU'.1]; simp
+    · simp [hk]
+
+theorem lookup_foldl_erase {α β : Type} (U : List β) (f : β → Mod) (E : List (Mod × α)) (x : Mod) :
+    lookup (U.foldl (fun E p => erase E (f p)) E) x =
+      if x ∈ U.map f then none else lookup E x := by
+  induction U generalizing E with
+  | nil => simp
+  | cons p t ih =>
+    simp only [List.foldl_cons, ih, lookup_erase, List.map_cons, List.mem_cons]
+    by_cases h1 : x ∈ t.map f
+    · simp [h1]
+    · by_cases h2 : f p = x
+      · simp [h2]
+      · have : ¬ x = f p := fun h => h2 h.symm
+        simp [h1, h2, this]
+
+theorem writeBatch_nodup (root : Mod) (ups : List (Mod × Content)) :
+    NodupKeys (writeBatch root ups) :=
+  nodupKeys_foldl_insert _ [] (by simp [NodupKeys, keys])
+
+theorem writeBatch_noroot (root : Mod) (ups : List (Mod × Content)) :
+    root ∉ keys (writeBatch root ups) := by
+  unfold writeBatch
+  refine foldl_inv (fun acc : List (Mod × Content) => root ∉ keys acc)
+    (fun (acc : List (Mod × Content)) (p : Mod × Content) => insert acc p.1 p.2) _ ?_ []
+    (by simp [keys])
+  intro acc p hp hacc
+  have hp1 : p.1 ≠ root := by simpa using (List.mem_filter.mp hp).2
+  simp only [insert, keys, List.map_cons, List.mem_cons, not_or]
+  refine ⟨fun h => hp1 h.symm, fun h => ?_⟩
+  exact hacc ((keys_erase acc p.1 root).mp h).1
+
+theorem update_fold_sources (s : State Mod Content Sig Err) (U : List (Mod × Content)) :
+    (U.foldl (updateOne ck) s).sources = U.foldl (fun S p => insert S p.1 p.2) s.sources := by
+  induction U generalizing s with
+  | nil => rfl
+  | cons p t ih => simp only [List.foldl_cons, ih]; rfl
+
+theorem update_fold_errors (s : State Mod Content Sig Err) (U : List (Mod × Content)) :
+    (U.foldl (updateOne ck) s).errors = U.foldl (fun E p => erase E p.1) s.errors := by
+  induction U generalizing s with
+  | nil => rfl
+  | cons p t ih => simp only [List.foldl_cons, ih]; rfl
+
+theorem mem_flatMap_tagged {α : Type} (U : List (Mod × α)) (hU : NodupKeys U) (f : α → List Err)
+    (k : Mod) (e : Err) :
+    (k, e) ∈ U.flatMap (fun p => tagged p.1 (f p.2)) ↔
+      ∃ es, lookup (U.map (fun p => (p.1, f p.2))) k = some es ∧ e ∈ es := by
+  have hl : lookup (U.map (fun p => (p.1, f p.2))) k = (lookup U k).map f :=
+    lookup_map_val U (fun _ a => f a) k
+  rw [hl]
+  simp only [List.mem_flatMap, mem_tagged]
+  constructor
+  · rintro ⟨⟨k', a⟩, hp, rfl, he⟩
+    exact ⟨f a, by rw [(mem_iff_lookup_of_nodup hU k a).mp hp]; rfl, he⟩
+  · rintro ⟨es, h1, h2⟩
+    cases hc : lookup U k with
+    | none => rw [hc] at h1; cases h1
+    | some a =>
+      rw [hc] at h1; cases h1
+      exact ⟨(k, a), (mem_iff_lookup_of_nodup hU k a).mpr hc, rfl, h2⟩
+
+theorem update_inv (hF : Frame ck) (hL : LocalW ck) (hK : Kinds ck)
+    (s : State Mod Content Sig Err) (ups : List (Mod × Content)) (hinv : Inv ck s) :
+    Inv ck (update ck s ups) := by
+  unfold update
+  generalize hUdef : writeBatch ck.root ups = U
+  have hUn : NodupKeys U := hUdef ▸ writeBatch_nodup ck.root ups
+  have hUr : ck.root ∉ keys U := hUdef ▸ writeBatch_noroot ck.root ups
+  simp only
+  have hcx : GoodCx ck (U.foldl (updateOne ck) s).sources (U.foldl (updateOne ck) s).globalCx :=
+    foldl_inv (fun s' : State Mod Content Sig Err => GoodCx ck s'.sources s'.globalCx)
+      (updateOne ck) U
+      (by
+        intro s' p hp h2 x
+        have hpk : p.1 ∈ keys U := List.mem_map.mpr ⟨p, hp, rfl⟩
         have := h2 x
         simp only [updateOne, lookup_insert, lookup_freshCx] at this ⊢
         by_cases hr : ck.root = x
-        · have : p.1 ≠ x := fun h => hroot (by rw [hr, ← h]; exact hpk)
+        · have : p.1 ≠ x := fun h => hUr (by rw [hr, ← h]; exact hpk)
           simp_all
         · by_cases hx : p.1 = x
           · subst hx; simp [hr]
-          · simp_all
-      · intro m c hc
-        simp only [updateOne, lookup_insert] at hc
-        split at hc
-        · cases hc; exact hclean p hp
-        · exact h3 m c hc
-      · intro x hx
-        have : p.1 ≠ x := fun h => hx (h ▸ hpk)
-        simp only [updateOne, lookup_insert, this, ↓reduceIte]
-        exact h4 x hx)
-    s ⟨rfl, hinv.1, hinv.2.2, fun _ _ => rfl⟩
-  obtain ⟨h1, h2, h3, h4⟩ := hfold
-  have hpend : ups.flatMap (fun p => tagged p.1 (ck.parseErrs p.2)) = [] := by
-    rw [List.flatMap_eq_nil_iff]
-    intro p hp; simp [tagged, hclean p hp]
-  unfold update
-  simp only [hpend]
-  exact recheck_inv ck hF hL s _ (keys ups) _ hinv h1 h2 h3 h4
+          · simp_all)
+      s hinv.1
+  have hsrc : ∀ x, lookup (U.foldl (updateOne ck) s).sources x =
+      match lookup U x with
+      | some c => some c
+      | none => lookup s.sources x := fun x => by
+    rw [update_fold_sources, lookup_foldl_insert U hUn]
+  have herr : ∀ x, lookup (U.foldl (updateOne ck) s).errors x =
+      if x ∈ keys U then none else lookup s.errors x := fun x => by
+    rw [update_fold_errors, lookup_foldl_erase U (fun p => p.1)]; rfl
+  have hsyn : ∀ k, lookup (U.map (fun p => (p.1, ck.parseErrs p.2))) k =
+      (lookup U k).map ck.parseErrs := fun k => lookup_map_val U (fun _ a => ck.parseErrs a) k
+  refine recheck_inv ck hF hL hK s _ (U.map (fun p => (p.1, ck.parseErrs p.2))) _ (keys U) _ hinv
+    hcx (mem_flatMap_tagged U hUn ck.parseErrs) ?_ ?_ ?_
     (fun x hx => self_mem_affectedSet ck _ _ x hx)
     (fun k hk => .inr (cov_affectedSet ck _ _ k hk))
+    (fun y c x hy hc hx => affected_closed ck _ _ y x hy (mem_fwdEdges_of_lookup ck _ y c x hc hx))
+  · intro k
+    by_cases hk : k ∈ keys U
+    · right
+      obtain ⟨c, hc⟩ := lookup_some_of_mem_keys hk
+      rw [herr, hsrc, hsyn, hc]; simp [hk]
+    · left
+      rw [herr, hsrc, hsyn, lookup_none_of_not_mem_keys hk]; simp [hk]
+  · intro k hk
+    rw [herr, hsyn, lookup_none_of_not_mem_keys hk]; simp [hk]
+  · intro x hx
+    rw [hsrc, lookup_none_of_not_mem_keys hx]
 
-theorem remove_inv (hF : Frame ck) (hL : Local ck) (s : State Mod Content Sig Err)
-    (ms : List Mod) (hroot : ck.root ∉ ms) (hinv : Inv ck s) : Inv ck (remove ck s ms) := by
-  have hfold := foldl_inv
-    (fun s' : State Mod Content Sig Err => s'.errors = s.errors ∧
-      GoodCx ck s'.sources s'.globalCx ∧ CleanS ck s'.sources ∧
-      ∀ x, x ∉ ms → lookup s'.sources x = lookup s.sources x)
-    removeOne ms
-    (by
-      rintro s' m hm ⟨h1, h2, h3, h4⟩
-      refine ⟨h1, ?_, ?_, ?_⟩
-      · intro x
+theorem remove_fold (s : State Mod Content Sig Err) (ms : List Mod) :
+    (ms.foldl removeOne s).sources = ms.foldl erase s.sources ∧
+      (ms.foldl removeOne s).errors = ms.foldl erase s.errors := by
+  induction ms generalizing s with
+  | nil => exact ⟨rfl, rfl⟩
+  | cons p t ih => simp only [List.foldl_cons]; exact ih _
+
+theorem remove_inv (hF : Frame ck) (hL : LocalW ck) (hK : Kinds ck)
+    (s : State Mod Content Sig Err) (ms : List Mod) (hinv : Inv ck s) :
+    Inv ck (remove ck s ms) := by
+  unfold remove
+  generalize hmdef : ms.filter (fun m => m ≠ ck.root) = ms'
+  have hr : ck.root ∉ ms' := by
+    rw [← hmdef]; intro h; simpa using (List.mem_filter.mp h).2
+  simp only
+  have hcx : GoodCx ck (ms'.foldl removeOne s).sources (ms'.foldl removeOne s).globalCx :=
+    foldl_inv (fun s' : State Mod Content Sig Err => GoodCx ck s'.sources s'.globalCx)
+      removeOne ms'
+      (by
+        intro s' m hm h2 x
         have := h2 x
         simp only [removeOne, lookup_erase, lookup_freshCx] at this ⊢
-        by_cases hr : ck.root = x
-        · have : m ≠ x := fun h => hroot (by rw [hr, ← h]; exact hm)
+        by_cases hrx : ck.root = x
+        · have : m ≠ x := fun h => hr (by rw [hrx, ← h]; exact hm)
           simp_all
         · by_cases hx : m = x
-          · subst hx; simp [hr]
-          · simp_all
-      · intro k c hc
-        simp only [removeOne, lookup_erase] at hc
-        split at hc
-        · cases hc
-        · exact h3 k c hc
-      · intro x hx
-        have : m ≠ x := fun h => hx (h ▸ hm)
-        simp only [removeOne, lookup_erase, this, ↓reduceIte]
-        exact h4 x hx)
-    s ⟨rfl, hinv.1, hinv.2.2, fun _ _ => rfl⟩
-  obtain ⟨h1, h2, h3, h4⟩ := hfold
-  unfold remove
-  exact recheck_inv ck hF hL s _ ms _ hinv h1 h2 h3 h4
+          · subst hx; simp [hrx]
+          · simp_all)
+      s hinv.1
+  have hsrc : ∀ x, lookup (ms'.foldl removeOne s).sources x =
+      if x ∈ ms' then none else lookup s.sources x := fun x => by
+    rw [(remove_fold s ms').1]
+    have := lookup_foldl_erase ms' (fun m => m) s.sources x
+    simpa using this
+  have herr : ∀ x, lookup (ms'.foldl removeOne s).errors x =
+      if x ∈ ms' then none else lookup s.errors x := fun x => by
+    rw [(remove_fold s ms').2]
+    have := lookup_foldl_erase ms' (fun m => m) s.errors x
+    simpa using this
+  refine recheck_inv ck hF hL hK s _ [] [] ms' _ hinv hcx (by simp [lookup]) ?_ ?_ ?_
     (fun x hx => self_mem_affectedSet ck _ _ x hx)
     (fun k hk => .inl (cov_affectedSet ck _ _ k hk))
+    (fun y c x hy hc hx => by
+      rw [hsrc] at hc
+      split at hc
+      · cases hc
+      · exact affected_closed ck _ _ y x hy (mem_fwdEdges_of_lookup ck _ y c x hc hx))
+  · intro k
+    by_cases hk : k ∈ ms'
+    · right; rw [herr, hsrc]; simp [hk, lookup]
+    · left; rw [herr, hsrc]; simp [hk, lookup]
+  · intro k hk; rw [herr]; simp [hk, lookup]
+  · intro x hx; rw [hsrc]; simp [hx]
 
-theorem rename_inv (hF : Frame ck) (hL : Local ck) (s : State Mod Content Sig Err)
-    (rens : List (Mod × Mod)) (hsig : SigIndep ck)
-    (hroot : ∀ p ∈ rens, p.1 ≠ ck.root ∧ p.2 ≠ ck.root) (hinv : Inv ck s) :
+theorem rename_inv (hF : Frame ck) (hL : LocalW ck) (hK : Kinds ck)
+    (s : State Mod Content Sig Err) (rens : List (Mod × Mod)) (hinv : Inv ck s) :
     Inv ck (rename ck s rens) := by
+  unfold rename
+  generalize hrdef : renamePairs ck.root rens = rs
+  have hroot : ∀ p ∈ rs, p.1 ≠ ck.root ∧ p.2 ≠ ck.root := by
+    intro p hp; rw [← hrdef] at hp
+    simpa [renamePairs] using (List.mem_filter.mp hp).2
+  simp only
+  generalize hDdef : rs.flatMap (fun p => [p.1, p.2]) = D
   have hfold := foldl_inv
-    (fun acc : State Mod Content Sig Err × List (Mod × Err) => acc.2 = [] ∧
-      acc.1.errors = s.errors ∧
-      GoodCx ck acc.1.sources acc.1.globalCx ∧ CleanS ck acc.1.sources ∧
-      ∀ x, x ∉ rens.flatMap (fun p => [p.1, p.2]) → lookup acc.1.sources x = lookup s.sources x)
-    (renameOne ck) rens
+    (fun acc : State Mod Content Sig Err × List (Mod × List Err) =>
+      GoodCx ck acc.1.sources acc.1.globalCx ∧ NodupKeys acc.2 ∧
+      (∀ k, (lookup acc.1.errors k = lookup s.errors k ∧
+          lookup acc.1.sources k = lookup s.sources k ∧ lookup acc.2 k = none) ∨
+        (lookup acc.1.errors k = none ∧
+          lookup acc.2 k = (lookup acc.1.sources k).map ck.parseErrs)) ∧
+      (∀ k, k ∉ D → lookup acc.1.errors k = lookup s.errors k ∧ lookup acc.2 k = none) ∧
+      (∀ x, x ∉ D → lookup acc.1.sources x = lookup s.sources x) ∧
+      (∀ y c, lookup acc.1.sources y = some c →
+        ∃ o, lookup s.sources o = some c ∧ (o ∈ D ∨ o = y)))
+    (renameOne ck) rs
     (by
-      rintro ⟨s', pend⟩ p hp ⟨h0, h1, h2, h3, h4⟩
-      simp only at h0 h1 h2 h3 h4
-      have hpD1 : p.1 ∈ rens.flatMap (fun p => [p.1, p.2]) :=
-        List.mem_flatMap.mpr ⟨p, hp, by simp⟩
-      have hpD2 : p.2 ∈ rens.flatMap (fun p => [p.1, p.2]) :=
-        List.mem_flatMap.mpr ⟨p, hp, by simp⟩
+      rintro ⟨s', syn⟩ p hp ⟨h1, hn, hq, hqa, hd, ho⟩
+      simp only at h1 hn hq hqa hd ho
+      have hpD1 : p.1 ∈ D := hDdef ▸ List.mem_flatMap.mpr ⟨p, hp, by simp⟩
+      have hpD2 : p.2 ∈ D := hDdef ▸ List.mem_flatMap.mpr ⟨p, hp, by simp⟩
       have hr1 := (hroot p hp).1
       have hr2 := (hroot p hp).2
       unfold renameOne
       simp only
       cases hl : lookup s'.sources p.1 with
-      | none => exact ⟨h0, h1, h2, h3, h4⟩
+      | none => exact ⟨h1, hn, hq, hqa, hd, ho⟩
       | some c =>
-        have hg : lookup s'.globalCx p.1 = some (ck.sig p.1 c) := by
-          rw [h2 p.1, lookup_freshCx, hl]
-          have : ¬ ck.root = p.1 := fun h => hr1 h.symm
-          simp [this]
-        simp only [hg]
-        refine ⟨by simp [h0, tagged, h3 p.1 c hl], h1, ?_, ?_, ?_⟩
+        simp only
+        refine ⟨?_, nodupKeys_insert _ _ _ (nodupKeys_erase _ _ hn), ?_, ?_, ?_, ?_⟩
         · intro x
-          have := h2 x
+          have := h1 x
           simp only [lookup_insert, lookup_erase, lookup_freshCx] at this ⊢
           by_cases hr : ck.root = x
           · have e1 : p.1 ≠ x := fun h => hr1 (by rw [h, hr])
             have e2 : p.2 ≠ x := fun h => hr2 (by rw [h, hr])
             simp_all
           · by_cases hx2 : p.2 = x
-            · subst hx2; simp [hr, hsig p.2 p.1 c]
+            · subst hx2; simp [hr]
             · by_cases hx1 : p.1 = x
               · subst hx1; simp [hr, hx2]
               · simp_all
-        · intro k c' hc
-          simp only [lookup_insert, lookup_erase] at hc
-          split at hc
-          · cases hc; exact h3 p.1 c hl
-          · split at hc
-            · cases hc
-            · exact h3 k c' hc
+        · intro k
+          simp only [lookup_insert, lookup_erase]
+          by_cases hk2 : p.2 = k
+          · right; simp [hk2]
+          · by_cases hk1 : p.1 = k
+            · right; simp [hk1, hk2]
+            · simp only [hk1, hk2, ↓reduceIte]; exact hq k
+        · intro k hk
+          have e1 : p.1 ≠ k := fun h => hk (h ▸ hpD1)
+          have e2 : p.2 ≠ k := fun h => hk (h ▸ hpD2)
+          simp only [lookup_insert, lookup_erase, e1, e2, ↓reduceIte]
+          exact hqa k hk
         · intro x hx
           have e1 : p.1 ≠ x := fun h => hx (h ▸ hpD1)
           have e2 : p.2 ≠ x := fun h => hx (h ▸ hpD2)
           simp only [lookup_insert, lookup_erase, e1, e2, ↓reduceIte]
-          exact h4 x hx)
-    (s, []) ⟨rfl, rfl, hinv.1, hinv.2.2, fun _ _ => rfl⟩
-  obtain ⟨h0, h1, h2, h3, h4⟩ := hfold
-  unfold rename
-  simp only [h0]
-  exact recheck_inv ck hF hL s _ (rens.flatMap (fun p => [p.1, p.2])) _ hinv h1 h2 h3 h4
+          exact hd x hx
+        · intro y c' hc
+          simp only [lookup_insert, lookup_erase] at hc
+          split at hc
+          · cases hc
+            obtain ⟨o, ho1, ho2⟩ := ho p.1 c hl
+            refine ⟨o, ho1, .inl ?_⟩
+            rcases ho2 with h | h
+            · exact h
+            · rw [h]; exact hpD1
+          · split at hc
+            · cases hc
+            · exact ho y c' hc)
+    (s, []) ⟨hinv.1, by simp [NodupKeys, keys], fun _ => .inl ⟨rfl, rfl, rfl⟩,
+      fun _ _ => ⟨rfl, rfl⟩, fun _ _ => rfl, fun y c hc => ⟨y, hc, .inr rfl⟩⟩
+  obtain ⟨h1, hn, hq, hqa, hd, ho⟩ := hfold
+  have hpend := mem_flatMap_tagged (rs.foldl (renameOne ck) (s, [])).2 hn (fun es => es)
+  have hmapid : (rs.foldl (renameOne ck) (s, [])).2.map (fun p => (p.1, p.2)) =
+      (rs.foldl (renameOne ck) (s, [])).2 := by simp
+  rw [hmapid] at hpend
+  refine recheck_inv ck hF hL hK s _ _ _ D _ hinv h1 hpend hq hqa hd
     (fun x hx => self_mem_affectedSet ck _ _ x hx)
     (fun k hk => .inl (cov_affectedSet ck _ _ k hk))
+    (fun y c x hy hc hx => by
+      obtain ⟨o, ho1, ho2⟩ := ho y c hc
+      have hoR : o ∈ affectedSet ck s.sources D := by
+        rcases ho2 with h | h
+        · exact self_mem_affectedSet ck _ _ o h
+        · rw [h]; exact hy
+      exact affected_closed ck _ _ o x hoR (mem_fwdEdges_of_lookup ck _ o c x ho1 hx))
 
-theorem step_inv (hF : Frame ck) (hL : Local ck) (s : State Mod Content Sig Err)
-    (op : Op Mod Content) (hop : OpSafe ck op) (hinv : Inv ck s) : Inv ck (step ck s op) := by
+theorem step_inv (hF : Frame ck) (hL : LocalW ck) (hK : Kinds ck)
+    (s : State Mod Content Sig Err) (op : Op Mod Content) (hinv : Inv ck s) :
+    Inv ck (step ck s op) := by
   cases op with
-  | update ups => exact update_inv ck hF hL s ups hop.1 hop.2 hinv
-  | rename rens => exact rename_inv ck hF hL s rens hop.1 hop.2 hinv
-  | remove ms => exact remove_inv ck hF hL s ms hop hinv
+  | update ups => exact update_inv ck hF hL hK s ups hinv
+  | rename rens => exact rename_inv ck hF hL hK s rens hinv
+  | remove ms => exact remove_inv ck hF hL hK s ms hinv
 
-theorem fresh_inv (S : Sources Mod Content) (hc : CleanS ck S) : Inv ck (fresh ck S) :=
-  ⟨fun _ => rfl, fun _ _ => Iff.rfl, hc⟩
+theorem fresh_inv (S : Sources Mod Content) : Inv ck (fresh ck S) :=
+  ⟨fun _ => rfl, fun _ _ => Iff.rfl⟩
 
 /-! ### The server's file map is the file-system view -/
 
-theorem sources_update_fold (s : State Mod Content Sig Err) (ups : List (Mod × Content)) :
-    (ups.foldl (updateOne ck) s).sources = ups.foldl (fun S p => insert S p.1 p.2) s.sources := by
-  induction ups generalizing s with
-  | nil => rfl
-  | cons p ps ih => simp only [List.foldl_cons, ih]; rfl
-
-theorem sources_remove_fold (s : State Mod Content Sig Err) (ms : List Mod) :
-    (ms.foldl removeOne s).sources = ms.foldl erase s.sources := by
-  induction ms generalizing s with
-  | nil => rfl
-  | cons p ps ih => simp only [List.foldl_cons, ih]; rfl
-
-theorem sources_renameOne (acc : State Mod Content Sig Err × List (Mod × Err)) (p : Mod × Mod) :
-    (renameOne ck acc p).1.sources = applyRename acc.1.sources p := by
+theorem sources_renameOne (acc : State Mod Content Sig Err × List (Mod × List Err))
+    (p : Mod × Mod) : (renameOne ck acc p).1.sources = applyRename acc.1.sources p := by
   unfold renameOne applyRename
   simp only
   cases lookup acc.1.sources p.1 <;> rfl
 
-theorem sources_rename_fold (acc : State Mod Content Sig Err × List (Mod × Err))
+theorem sources_rename_fold (acc : State Mod Content Sig Err × List (Mod × List Err))
     (rens : List (Mod × Mod)) :
     (rens.foldl (renameOne ck) acc).1.sources = rens.foldl applyRename acc.1.sources := by
   induction rens generalizing acc with
@@ -702,91 +976,19 @@ theorem sources_rename_fold (acc : State Mod Content Sig Err × List (Mod × Err
   | cons p ps ih => simp only [List.foldl_cons, ih, sources_renameOne]
 
 theorem sources_step (s : State Mod Content Sig Err) (op : Op Mod Content) :
-    (step ck s op).sources = applyOp s.sources op := by
+    (step ck s op).sources = applyOp ck.root s.sources op := by
   cases op with
-  | update ups => exact sources_update_fold ck s ups
-  | rename rens => exact sources_rename_fold ck (s, []) rens
-  | remove ms => exact sources_remove_fold s ms
+  | update ups => exact update_fold_sources ck s _
+  | rename rens => exact sources_rename_fold ck (s, []) _
+  | remove ms => exact (remove_fold s _).1
 
 theorem sources_run (ops : List (Op Mod Content)) (s : State Mod Content Sig Err) :
-    (run ck ops s).sources = applyOps ops s.sources := by
+    (run ck ops s).sources = applyOps ck.root ops s.sources := by
   induction ops generalizing s with
   | nil => rfl
   | cons op ops ih =>
     simp only [run, applyOps, List.foldl_cons] at ih ⊢
     rw [ih, sources_step]
-
-/-! ### The `unwrap()`s of `rename_module` -/
-
-theorem keysOk_fresh (S : Sources Mod Content) : KeysOk (fresh ck S) := by
-  intro m hm
-  show (lookup (freshCx ck S) m).isSome
-  rw [lookup_freshCx]
-  have hm' : (lookup S m).isSome := hm
-  split
-  · rfl
-  · simpa using hm'
-
-theorem keysOk_updateOne (s : State Mod Content Sig Err) (p : Mod × Content) (h : KeysOk s) :
-    KeysOk (updateOne ck s p) := by
-  intro m hm
-  have := h m
-  simp only [updateOne, lookup_insert] at hm ⊢
-  split <;> simp_all
-
-theorem keysOk_removeOne (s : State Mod Content Sig Err) (m' : Mod) (h : KeysOk s) :
-    KeysOk (removeOne s m') := by
-  intro m hm
-  have := h m
-  simp only [removeOne, lookup_erase] at hm ⊢
-  split <;> simp_all
-
-theorem keysOk_renameOne (acc : State Mod Content Sig Err × List (Mod × Err)) (p : Mod × Mod)
-    (h : KeysOk acc.1) : KeysOk (renameOne ck acc p).1 := by
-  unfold renameOne
-  simp only
-  cases hl : lookup acc.1.sources p.1 with
-  | none => exact h
-  | some c =>
-    have hs := h p.1 (by simp [hl])
-    cases hg : lookup acc.1.globalCx p.1 with
-    | none => simp [hg] at hs
-    | some sg =>
-      intro m hm
-      have := h m
-      simp only [lookup_insert, lookup_erase] at hm ⊢
-      by_cases h2 : p.2 = m
-      · simp [h2]
-      · by_cases h1 : p.1 = m
-        · simp [h1, h2] at hm
-        · simp only [h1, h2, ↓reduceIte] at hm ⊢
-          exact this hm
-
-theorem renameOne_fst (s : State Mod Content Sig Err) (pend pend' : List (Mod × Err))
-    (p : Mod × Mod) : (renameOne ck (s, pend) p).1 = (renameOne ck (s, pend') p).1 := by
-  unfold renameOne
-  simp only
-  cases lookup s.sources p.1 <;> rfl
-
-theorem renameOk_of_keysOk (s : State Mod Content Sig Err) (rens : List (Mod × Mod))
-    (h : KeysOk s) : RenameOk ck s rens := by
-  induction rens generalizing s with
-  | nil => trivial
-  | cons p ps ih => exact ⟨h p.1, ih _ (keysOk_renameOne ck (s, []) p h)⟩
-
-theorem keysOk_step (s : State Mod Content Sig Err) (op : Op Mod Content) (h : KeysOk s) :
-    KeysOk (step ck s op) := by
-  cases op with
-  | update ups =>
-    show KeysOk (ups.foldl (updateOne ck) s)
-    exact foldl_inv KeysOk (updateOne ck) ups (fun s p _ hs => keysOk_updateOne ck s p hs) s h
-  | rename rens =>
-    show KeysOk (rens.foldl (renameOne ck) (s, [])).1
-    exact foldl_inv (fun acc => KeysOk acc.1) (renameOne ck) rens
-      (fun acc p _ hs => keysOk_renameOne ck acc p hs) (s, []) h
-  | remove ms =>
-    show KeysOk (ms.foldl removeOne s)
-    exact foldl_inv KeysOk removeOne ms (fun s p _ hs => keysOk_removeOne s p hs) s h
 
 end Ops
 
